@@ -63,6 +63,21 @@ pub fn checks() -> Vec<Box<dyn Check>> {
 
 const ACCEPT: &[&str] = &["C12.", "panic"];
 
+thread_local! {
+    static ACCEPT_OVERRIDE: std::cell::Cell<Option<&'static [&'static str]>> = const { std::cell::Cell::new(None) };
+}
+fn accept() -> &'static [&'static str] {
+    ACCEPT_OVERRIDE.with(|a| a.get()).unwrap_or(ACCEPT)
+}
+
+/// Run a ping-pong plan reporting only the oracles in `accept` (used by the codec checks).
+pub fn exec_plan_b_with(plan: &PlanB, counters: &mut Counters, acc: &'static [&'static str]) -> Result<RunOut, String> {
+    ACCEPT_OVERRIDE.with(|a| a.set(Some(acc)));
+    let r = exec_plan_b(plan, counters);
+    ACCEPT_OVERRIDE.with(|a| a.set(None));
+    r
+}
+
 fn gen_frame_mut(rng: &mut Rng, listed_only: bool) -> FrameMut {
     let lenmut = |rng: &mut Rng| -> Mutation {
         if rng.chance(1, 2) {
@@ -104,7 +119,7 @@ fn gen_frame_mut(rng: &mut Rng, listed_only: bool) -> FrameMut {
     }
 }
 
-fn gen_plan_b(seed: u64, tier: Tier) -> PlanB {
+pub fn gen_plan_b(seed: u64, tier: Tier) -> PlanB {
     let mut rng = Rng::new(seed);
     let rng = &mut rng;
     let kind = *rng.pick(&["trace", "trace", "trace", "dummy", "prio3", "prio3", "poplar1"]);
@@ -183,7 +198,7 @@ impl<'a> Visitor for PpVis<'a> {
         A: Adapter<V>,
     {
         let plan = self.plan;
-        let mut ctx = Ctx::new(self.counters, ACCEPT);
+        let mut ctx = Ctx::new(self.counters, accept());
         let mut setups = Vec::new();
         for e in &plan.exchanges {
             let mut nonce = [0u8; 16];
@@ -222,7 +237,7 @@ fn exec_plan_b(plan: &PlanB, counters: &mut Counters) -> Result<RunOut, String> 
         match plan.vdaf.as_str() {
             "trace" => {
                 let v = TraceVdaf { rounds: plan.rounds };
-                let mut ctx = Ctx::new(counters, ACCEPT);
+                let mut ctx = Ctx::new(counters, accept());
                 let setups = plan.exchanges.iter().map(|e| Setup { public: TPublic, inputs: [TInput(e.in0), TInput(e.in1)] }).collect();
                 run_world(&v, plan, &mut ctx, setups, TAp(plan.ap_byte), true)?;
                 // combiner order observed by the instrumented VDAF
@@ -239,7 +254,7 @@ fn exec_plan_b(plan: &PlanB, counters: &mut Counters) -> Result<RunOut, String> 
             }
             "dummy" => {
                 let v = dummy::Vdaf::new(plan.rounds as u32);
-                let mut ctx = Ctx::new(counters, ACCEPT);
+                let mut ctx = Ctx::new(counters, accept());
                 let setups = plan.exchanges.iter().map(|e| Setup { public: (), inputs: [dummy::InputShare(e.in0 as u8), dummy::InputShare(e.in1 as u8)] }).collect();
                 run_world(&v, plan, &mut ctx, setups, dummy::AggregationParam(plan.ap_byte), false)?;
                 Ok(ctx.finish())
